@@ -186,6 +186,39 @@ fn corpus_all(_env: &Env, st: &mut Stats) -> Vec<Failure> {
     fails
 }
 
+/// Enumerated repeat family (see syn::REPEAT_FORMS): every count up to 600.
+fn repeats(env: &Env, st: &mut Stats) -> Vec<Failure> {
+    let mut fails = vec![];
+    for form in 0..REPEAT_FORMS.len() {
+        for k in repeat_counts(env.tier == Tier::Thorough) {
+            let text = repeat_text(form, k);
+            st.eval();
+            match compare_accept("repeats", &text) {
+                Ok(v) => {
+                    st.class(if v == Verdict::BothAccept { "repeats:accepted" } else { "repeats:rejected" });
+                    if k >= 64 {
+                        st.nontrivial(&format!("repeat:{}:{}", form, k));
+                    }
+                }
+                Err(f) => {
+                    // keep the case small: form and count identify it
+                    let mut f = f;
+                    f.case = json!({"form": form, "count": k, "expression_prefix": repeat_text(form, 3)});
+                    fails.push(f);
+                    break;
+                }
+            }
+        }
+    }
+    st.sample(|| json!({"repeat_form": repeat_text(3, 4), "counts": "0..=600"}));
+    fails
+}
+
+fn replay_repeat(case: &Value, _env: &Env) -> CaseResult {
+    let text = repeat_text(case["form"].as_u64().unwrap_or(0) as usize, case["count"].as_u64().unwrap_or(0) as usize);
+    compare_accept("repeats", &text).map(|_| ())
+}
+
 fn fuzz_run(env: &Env, st: &mut Stats) -> Vec<Failure> {
     crate::fuzzing::campaign("syntax_diff", env, st, 240)
 }
@@ -209,6 +242,7 @@ pub fn property() -> Property {
         minimise: None,
         subs: vec![
             Sub::Custom(CustomSub { name: "corpus", run: corpus_all, replay: replay_text }),
+            Sub::Custom(CustomSub { name: "repeats", run: repeats, replay: replay_repeat }),
             Sub::Custom(CustomSub { name: "fuzz-syntax_diff", run: fuzz_run, replay: fuzz_replay }),
             Sub::Bytes(BytesSub { name: "sentences", f: sentences, max_len: 1500, quick: Budget { threads: 8, cases: 2500 }, thorough: Budget { threads: 16, cases: 80_000 }, keep_unreproducible: false }),
             Sub::Bytes(BytesSub { name: "mutants", f: mutants, max_len: 1200, quick: Budget { threads: 8, cases: 6000 }, thorough: Budget { threads: 16, cases: 300_000 }, keep_unreproducible: false }),
